@@ -640,6 +640,16 @@ def findAdmin (A : AColl) (pn : Str) : List Str → Option Adm
     | some a => some a
     | none => findAdmin A pn r
 
+/-- `UseToken`: was this reuse key stored before? (no key obtainable = no reuse protection) -/
+def reused (used : List Str) : Option Str → Bool
+  | some k => used.contains k
+  | none => false
+
+/-- `UseToken`: store the reuse key -/
+def record (used : List Str) : Option Str → List Str
+  | some k => k :: used
+  | none => used
+
 /-- `AuthorizeAdminToken`, step by step; `used` = reuse keys recorded so far (`UseToken`). -/
 def authorizeAdmin (A : AColl) (used : List Str) (r : AdminReq) : List Str × AdminAuthz :=
   if !r.parseOk then (used, .unauthorized) else
@@ -649,10 +659,8 @@ def authorizeAdmin (A : AColl) (used : List Str) (r : AdminReq) : List Str × Ad
   match r.prov with
   | none => (used, .provNotFound)
   | some pn =>
-    if (match r.reuseKey with | some k => used.contains k | none => false) then (used, .unauthorized) else
-    let used' := match r.reuseKey with
-      | some k => k :: used
-      | none => used
+    if reused used r.reuseKey then (used, .unauthorized) else
+    let used' := record used r.reuseKey
     if !timeOk r then (used', .unauthorized) else
     if !matchesAud r.aud (audiencesFor r.dnsNames r.path) then (used', .unauthorized) else
     if r.iss ≠ adminClientIssuer ∧ r.iss ≠ pn then (used', .unauthorized) else
